@@ -122,6 +122,18 @@ def run(ctx, res):
             b = [c for c in t.children if c.data == 'b'][0]
             if b.children:
                 res.violation('regression of fixed finding F17: ' + f['what'], w)
+    for f in ctx['known']:
+        if f['id'] == 'F31' and f['status'] == 'fixed':
+            from lark import Lark, Token
+            w = f['witness']
+            for parser in ('lalr', 'earley'):
+                t = Lark(w['grammar'], parser=parser).parse(w['text'])
+                if [len(c.children) for c in t.children] != [0, 2]:
+                    res.violation('regression of fixed finding F31: ' + f['what'], dict(w, parser=parser, tree=str(t)))
+                t = Lark(w['grammar2'], parser=parser).parse(w['text2'])
+                kept = [[x.type for x in sub.scan_values(lambda v: isinstance(v, Token))] for sub in t.children]
+                if kept != [['X', 'X'], ['X', 'COMMA', 'X']]:
+                    res.violation('regression of fixed finding F31: ' + f['what'], dict(w, parser=parser, tree=str(t)))
     # hand-written shapes the random stream does not reach: alternatives of three and more symbols with a common first symbol whose names run together
     # when joined by '_' (helper non-terminals of CYK's normal form are named after the symbols they stand for), aliases on such alternatives
     corpus = [
